@@ -1012,6 +1012,37 @@ def search(res, tier, boost=False):
                       ('LShape', mesh_l, elems_l[:16], elems_l[:16], dict(pw_exact=False), dict(pw_exact=True)),
                       ('LShape', mesh_l, elems_l[:11], elems_l[:13], dict(quad_order=12, pw_exact=True), dict(quad_order=3, pw_exact=True)),
                       ('UnitSquare', mesh, elems[:20], elems[:20], dict(quad_order=12), dict(quad_order=11))]
+        # two DIFFERENT user curves of one class with the same break points (a square of side 5 and a 3-4-5 rhombus of
+        # side 5), meshed to the same parametric element lists, against ONE cache directory: "different curves never
+        # share a cache entry" - each call must return its own pair-wise evaluation, warm or cold
+        from src.mesh import MeshParametrized
+        from src.parametrization import PiecewisePolygon
+        polys = [('square-5', [(0., 0.), (5., 0.), (5., 5.), (0., 5.), (0., 0.)]),
+                 ('rhombus-3-4-5', [(0., 0.), (5., 0.), (8., 4.), (3., 4.), (0., 0.)])]
+        cache_dir = tempfile.mkdtemp(prefix='two_curves_', dir=tmp)
+        got = []
+        with silence_stdout():
+            for pname, vs in polys:
+                gam = PiecewisePolygon([np.array(v).reshape(2, 1) if False else np.array(v) for v in vs])
+                msh = MeshParametrized(gam)
+                msh.uniform_refine()
+                op = SingleLayerOperator(msh, cache_dir=cache_dir)
+                els = list(msh.leaf_elements)
+                info = dict(curves=[p_[0] for p_ in polys], this=pname, N=len(els), note='user polygons with identical break points')
+                cold = guarded(res, 'C17:real-leaf-raises:two-curves', info, lambda: op.bilform_matrix(els, els))
+                warm = guarded(res, 'C17:real-leaf-raises:two-curves', info, lambda: op.bilform_matrix(els, els))
+                got.append((pname, op, els, cold, warm, sorted(os.listdir(cache_dir)), info))
+        res.count(('two-curves', ), True)
+        for pname, op, els, cold, warm, files, info in got:
+            if cold is None or warm is None:
+                continue
+            with silence_stdout():
+                want = pairwise(op, els, els)
+            bad = [nm for nm, g_ in (('cold', cold), ('warm', warm)) if not bits_equal(g_, want)]
+            if bad:
+                res.violation('C17:curves-share-cache-entry', dict(info, wrong=bad, files_in_directory=files,
+                              max_abs_diff=float(np.abs(np.asarray(cold) - want).max())))
+                break
         for pi, (curve, mesh_p, tests, trials, kw1, kw2) in enumerate(pairs):
             cache_dir = tempfile.mkdtemp(prefix='f7_%d_' % pi, dir=tmp)
             with silence_stdout():
